@@ -1641,7 +1641,9 @@ fn is_valid_pragma(pragma: &str) -> bool {
 /// An identifier that can be *referred to*: `class`, `import`, `delete`, ... are valid property
 /// names but not valid expressions.
 fn is_valid_binding_ref(name: &str) -> bool {
-    is_valid_prop_ident(name) && !Atom::from(name).is_reserved_in_any()
+    let name = Atom::from(name);
+    // (words that were only reserved in ES3 - `native`, `final`, `int`, ... - are fine)
+    is_valid_prop_ident(&name) && !name.is_reserved() && !name.is_reserved_in_strict_mode(true)
 }
 
 fn jsx_member_expr_to_expr(JSXMemberExpr { obj, prop, span }: &JSXMemberExpr) -> Expr {
